@@ -16,7 +16,7 @@ from . import sched as S
 
 NONDYADIC = (0.1, 0.3, 0.7, 1.0 / 3.0, 0.15, 1.1)
 TOCKS = (0.03125, 0.1, 0.25, 0.5, 1.0, 0.3, 1.0 / 3.0, 0.7, 2.0)
-STARTS = (0.0, 0.0, 1.0, 2.5, 0.3, 100.1, 7.0 / 3.0)
+STARTS = (0.0, 0.0, 1.0, 2.5, 0.3, 100.1, 7.0 / 3.0, -1.5, -0.3)
 
 
 # --------------------------------------------------------------------------- program structure helpers
@@ -120,10 +120,21 @@ def chain_transparent(i, spec, par):
 # --------------------------------------------------------------------------- generators
 
 class TGen:
-    def __init__(self, rng, tock=None):
+    def __init__(self, rng, tock=None, start=None):
         self.rng = rng
         self.tock = tock if tock is not None else rng.choice(TOCKS)
+        self.start = start if start is not None else rng.choice(STARTS)
         self.next_id = 1
+
+    def near_tick(self):
+        """a positive yield that puts a due tyme (start + v) exactly on a later cycle tyme, or one ulp before / after it"""
+        import math
+        t = self.start
+        for _ in range(self.rng.choice([1, 2, 3, 4, 6])):
+            t += self.tock
+        v = t - self.start
+        v = self.rng.choice([v, math.nextafter(v, math.inf), math.nextafter(v, -math.inf)])
+        return v if v > 0 else self.tock
 
     def nid(self):
         self.next_id += 1
@@ -131,10 +142,13 @@ class TGen:
 
     def pos(self):
         r, t = self.rng, self.tock
+        if r.random() < 0.12:
+            return self.near_tick()
         return r.choice([t / 2, t, 1.5 * t, 2 * t, 2.5 * t, 3 * t, 5 * t, t + 0.1, 0.1, 0.3, 0.25, 0.7 * t, r.choice(NONDYADIC)])
 
     def asap(self):
-        return None if self.rng.random() < 0.3 else 0.0
+        k = self.rng.random()
+        return None if k < 0.3 else (-0.0 if k < 0.36 else 0.0)
 
     def script(self, pattern=None):
         r = self.rng
@@ -177,8 +191,11 @@ class TGen:
         for _ in range(n):
             if depth < 2 and r.random() < other_groups:
                 g = self.nid()
-                out.append(("group", g, r.choice([self.tock, 2 * self.tock, 0.1, 0.3]), False,
-                            self.forest(r.choice([1, 2, 3]), other_groups / 2, depth + 1), []))
+                if r.random() < 0.35:      # a KEPT DoDoer that is resumed every cycle: always, tock 0 (needs a limit)
+                    out.append(("group", g, 0.0, True, self.forest(r.choice([0, 1, 2, 3]), other_groups / 2, depth + 1), []))
+                else:
+                    out.append(("group", g, r.choice([self.tock, self.tock, 2 * self.tock, 0.1, 0.3]), False,
+                                self.forest(r.choice([1, 2, 3]), other_groups / 2, depth + 1), []))
             else:
                 out.append(self.leaf())
         return out
@@ -215,7 +232,88 @@ class TGen:
         r, t = self.rng, self.tock
         if maybe_none and r.random() < 0.45:
             return None
-        return r.choice([t / 2, t, 2.5 * t, 3 * t, 0.3, 1.0, -2 * t, 7 * t, 12 * t, 4.1 * t, 0.7, 9.99 * t, 20 * t])
+        if r.random() < 0.12:
+            import math
+            v = self.near_tick()           # the limit tymer expires exactly at a cycle end, or one ulp before / after
+            return r.choice([v, -v])
+        return r.choice([t / 2, t, 2.5 * t, 3 * t, 0.3, 1.0, -2 * t, 7 * t, 12 * t, 4.1 * t, 0.7, 9.99 * t, 20 * t, 0.0])
+
+
+def gen_degenerate(rng):
+    """programs whose Doist deque is EMPTY when the first cycle runs, or empties at once: no doers at all, every doer done at enter,
+    DoDoers without kids or whose kids are all done at enter; any tock / start / limit"""
+    g = TGen(rng)
+    r = rng
+
+    def done_leaf():
+        i = g.nid()
+        shape = r.choice(S.SHAPES)
+        act = ("done", r.choice([True, True, None, False]))
+        if not S.shape_ok(("leaf", i, shape, act, [])):
+            shape = "doify"
+        return ("leaf", i, shape, act, [])
+
+    k = r.random()
+    if k < 0.3:
+        specs = []
+    elif k < 0.6:
+        specs = [done_leaf() for _ in range(r.choice([1, 2, 3]))]
+    elif k < 0.8:
+        specs = [("group", g.nid(), r.choice([0.0, 0.0, g.tock]), False, [done_leaf() for _ in range(r.choice([0, 0, 1, 2]))], [])
+                 for _ in range(r.choice([1, 2]))]
+    else:
+        specs = [done_leaf(), ("group", g.nid(), 0.0, False, [("group", g.nid(), 0.0, False, [], [])], [])] + \
+                ([g.leaf("empty")] if r.random() < 0.5 else [])
+    return ("run", g.tock, r.choice([g.start, 3.0]), g.limit(), [], specs)
+
+
+def gen_faulted(rng):
+    """C04 with ONE fault: a leaf of a transparent group raises / is hit by KeyboardInterrupt at some step, in MID cycle, with live
+    siblings before and after it in its group.  The group of the failing doer comes LAST at every level (then flat and nested close the
+    survivors in the same order: by design children are closed before their parent's later siblings)."""
+    g = TGen(rng)
+    r = rng
+    pat = lambda: r.choice(["asap", "asap", "g04", "pos"])
+
+    def long_leaf():
+        i = g.nid()
+        ys = g.script(pat())
+        ys = ys + [g.asap() for _ in range(6)]
+        return ("leaf", i, r.choice([sh for sh in S.SHAPES if S.shape_ok(("leaf", i, sh, "ok", [([], ("yield", y)) for y in ys]))]), "ok",
+                [([], ("yield", y)) for y in ys])
+
+    depth = r.choice([1, 1, 2, 3])
+    # innermost group: before.., failing, after..
+    fi = g.nid()
+    ys = g.script(pat())[:r.choice([0, 1, 2, 3])]
+    steps = [([], ("yield", y)) for y in ys] + [([], r.choice(["raise", "raise", "kbint"]))]
+    failing = ("leaf", fi, r.choice(["doify", "genrecur", "doize", "bound"] + (["plain"] if S.shape_ok(("leaf", fi, "plain", "ok", steps)) else [])), "ok", steps)
+    kids = [long_leaf() for _ in range(r.choice([1, 1, 2]))] + [failing] + [long_leaf() for _ in range(r.choice([1, 1, 2]))]
+    cur = g._tgroup(kids)
+    for _ in range(depth - 1):
+        before = [long_leaf() for _ in range(r.choice([0, 1, 2]))]
+        cur = g._tgroup(g._wrap(before, 0.3, 2) + [cur])
+    top = g._wrap([long_leaf() for _ in range(r.choice([0, 1, 2, 3]))], 0.4, 1)
+    return ("run", g.tock, g.start, r.choice([None, None, 12 * g.tock, 7 * g.tock]), [], top + [cur])
+
+
+def single_fault_last_path(case):
+    """the guard under which C04 also speaks about faulted programs: exactly one leaf can fault (raise / kbint at a step, no failing
+    enter), every ancestor of it is a transparent group, and at every level the node on the path to it is the LAST sibling"""
+    faulty = [sp for sp, _, _ in S.all_specs(case) if sp[0] == "leaf" and (sp[3] == "fail" or sp[3] in ("kbint", "sysexit")
+              or any(o in ("raise", "kbint", "sysexit") + tuple(getattr(S, "CLOSE_OUTS", ())) for _, o in sp[4]))]
+    if len(faulty) != 1 or faulty[0][3] != "ok":
+        return False
+    if any(o in ("sysexit",) + tuple(getattr(S, "CLOSE_OUTS", ())) for _, o in faulty[0][4]):
+        return False
+    fid = faulty[0][1]
+    level = list(case[5])
+    while True:
+        if any(sp[0] == "leaf" and sp[1] == fid for sp in level):
+            return True
+        if not level or not transparent(level[-1]):
+            return False
+        level = list(level[-1][4])
 
 
 def gen_timed(rng, kind="nested"):
@@ -235,7 +333,7 @@ def gen_timed(rng, kind="nested"):
         specs = g.regroup(specs, 0.6 if kind in ("f46", "g04") else 0.45)
         if kind in ("f46", "nested", "g04") and not any(is_group(s) for s in specs):
             specs = [("group", g.nid(), 0.0, False, specs, [])]
-    return ("run", g.tock, rng.choice(STARTS), g.limit(), [], specs)
+    return ("run", g.tock, g.start, g.limit(maybe_none=not S.has_always(specs)), [], specs)
 
 
 def regroupings_of(case, rng, k):
@@ -323,6 +421,17 @@ def c03_analyse(case, d, nested_asap_rule="next-cycle"):
                 bad.add("recur-after-last-cycle")
             cyc_recurs.setdefault(k, []).append(i)
             resumes.setdefault(i, []).append(k)
+    # the tick, directly: a run that did not raise has completed cycles >= 1 cycles and its tyme is start ticked `cycles` times
+    # (T[-1] == final tyme was checked above); a run that ended `done` returned right after the cycle of its last event
+    if d["raised"] == "-":
+        if len(T) < 2:
+            bad.add("no-tick:run-returned-with-tyme-still-at-start")
+        elif d["done"] and op_free(case) and fault_free(case):
+            sb = next((n for n, e in enumerate(tr) if e[1] == "stopBeg"), len(tr))
+            cyc = [idx[e[2]] for e in tr[:sb] if e[1] in ("recur", "recurBad", "clean") and e[2] in idx]
+            kl = max(cyc) if cyc else 0
+            if len(T) - 1 != kl + 1:
+                bad.add("final-tyme-is-not-one-tick-after-the-last-cycle")
     # at most once per cycle, in enter order
     for k, ids in cyc_recurs.items():
         if len(set(ids)) != len(ids):
@@ -389,7 +498,7 @@ def c03_analyse(case, d, nested_asap_rule="next-cycle"):
 
 def leaf_view(case, d, dropped):
     """what C04 compares: events of every doer that is not a spliced group, its flags, scheduler done/tyme/raised"""
-    ev = [tuple(e[:3]) for e in d["trace"] if e[0] not in dropped and e[1] != "doers"]
+    ev = [tuple(e[:3]) for e in d["trace"] if e[0] not in dropped and e[0] != 0 and e[1] != "doers"]
     return dict(events=ev, flags=[(i, b) for i, b in d["flags"] if i not in dropped], done=d["done"], tyme=d["tyme"],
                 raised=d["raised"], late=len(d["late"]))
 
@@ -602,69 +711,185 @@ def run_cancelled(case, j):
 
 # --------------------------------------------------------------------------- run SEQUENCES: the same doer objects under two Doists
 
-def run_second(case, first, mode="do"):
-    """Build the doer objects of `case` ONCE, run them under a first Doist A (same tock, start tyme first[0], limit first[1] — usually
-    cut short), then under a FRESH Doist B with the start tyme and limit of `case`; returns the observation of the SECOND run only.
-    A run must not depend on earlier runs of the same doer objects: tymth is injected again by every enter (the model has no such
-    state at all), so this observation is compared with the model's run of `case` and with the flat/nested/ado twin."""
+def _classify(rec, thunk):
+    """run thunk(); every exception out of the real code becomes an observation (raised, index of the last event of the run)"""
+    raised = "-"
+    try:
+        thunk()
+    except S.SchedErr:
+        raised = "err"
+    except KeyboardInterrupt:
+        raised = "kbint"
+    except SystemExit:
+        raised = "sysexit"
+    except S.Runaway:
+        rec.dead = True
+        raised = "other:Runaway"
+    except BaseException as ex:      # asyncio.CancelledError, GeneratorExit, anything else: an observation, never a crash
+        raised = "cancelled" if type(ex).__name__ == "CancelledError" else "other:" + type(ex).__name__
+    return raised, len(rec.log)
+
+
+def _intify(x):
+    """equal value, other type: an integral float becomes an int (never -0.0)"""
+    if isinstance(x, float) and x == int(x) and not (x == 0 and str(x).startswith("-")) and abs(x) < 2 ** 40:
+        return int(x)
+    return x
+
+
+def _int_specs(specs):
+    out = []
+    for sp in specs:
+        if sp[0] == "leaf":
+            steps = [(ops, ("yield", _intify(o[1])) if isinstance(o, tuple) and o[0] == "yield" else o) for ops, o in sp[4]]
+            out.append(("leaf", sp[1], sp[2], sp[3], steps))
+        else:
+            out.append(("group", sp[1], _intify(sp[2]), sp[3], _int_specs(sp[4]), _int_specs(sp[5])))
+    return out
+
+
+VARIANTS = ("seq", "same", "faulted-first", "wound", "ints", "iter", "init", "call", "manual", "opts")
+HISTORY_VARIANTS = ("seq", "same", "faulted-first", "wound")       # need op-free programs: ops of a first run would change .doers lists
+
+
+def run_var(case, var, mode="do"):
+    """The REAL scheduler on `case`, reached through another public route or after a history; the observation must be the one of the
+    plain run (the model is asked about `case` only).  var = (kind, ...):
+      seq (start1, limit1)            same doer objects first run under another Doist (other start, cut by a limit), then a FRESH Doist
+      same (start1, limit1, tock1)    the same DOIST object runs twice; tock / limit re-set through their setters, tyme through do(tyme=)
+      faulted-first (start1, limit1)  first run (other Doist) has an extra doer that raises in cycle 1: do() raised, everything was closed
+      wound (tyme1,)                  every Doer/DoDoer object was wound onto a foreign Tymist (at tyme1) before the run
+      ints                            integral tock / start / limit / yielded tocks / DoDoer tocks given as int instead of float
+      iter                            doers given as a generator instead of a list
+      init                            doers stored in Doist.doers, do()/ado() called without doers
+      call                            Doist.__call__ instead of do()           (do mode only)
+      manual                          enter() / recur() loop / exit() driven by hand as do() does   (do mode only)
+      opts                            every DoDoer gets its doers and `always` through .opts (DoDoer.do(doers=..., always=...)) not __init__
+    """
     import asyncio
     import gc
+    from hio.base import tyming
     core.assert_tree()
-    _, tock, start, limit, pool, specs = case
+    kind = var[0]
+    _, tock, start, limit, pool, specs = case[:6]
     rec = S.Rec()
-    doers, poolobjs = None, None
-    out = None
+    rec.cleanfail = set(S.extras_of(case, "cleanfail")) if hasattr(S, "extras_of") else set()
+    b_tock, b_start, b_limit, b_specs, b_pool = tock, start, limit, specs, pool
+    if kind == "ints":
+        b_tock, b_start, b_limit = _intify(float(tock)), _intify(float(start)), (None if limit is None else _intify(float(limit)))
+        b_specs, b_pool = _int_specs(specs), _int_specs(pool)
     gc_was = gc.isenabled()
     gc.disable()
+    first_raised, first_tyme = None, None
     try:
-        for k, (st, lim) in enumerate([(first[0], first[1]), (start, limit)]):
-            doist = S.make_doist(rec, tock, st, lim)
+        doers = [S.build(rec, sp, 0) for sp in b_specs]
+        poolobjs = [S.build(rec, sp, 0) for sp in b_pool]
+        rec.pools[0] = poolobjs
+        doist = None
+        if kind in ("seq", "faulted-first", "same"):
+            st1, lim1 = var[1][0], var[1][1]
+            tk1 = var[1][2] if kind == "same" else tock
+            doist = S.make_doist(rec, tk1, st1, lim1)
             rec.sched[0] = doist
-            if doers is None:
-                doers = [S.build(rec, sp, 0) for sp in specs]
-                poolobjs = [S.build(rec, sp, 0) for sp in pool]
-            rec.pools[0] = poolobjs
-            n0 = len(rec.log)
-            raised, n = "-", None
-            try:
-                if mode == "do" or k == 0:
-                    doist.do(doers=doers)
-                else:
-                    loop = asyncio.SelectorEventLoop()
-                    try:
-                        loop.run_until_complete(doist.ado(doers=doers))
-                    finally:
-                        loop.close()
-                n = len(rec.log)
-            except S.SchedErr:
-                n = len(rec.log)
-                raised = "err"
-            except KeyboardInterrupt:
-                n = len(rec.log)
-                raised = "kbint"
-            except SystemExit:
-                n = len(rec.log)
-                raised = "sysexit"
-            except Exception as ex:
-                n = len(rec.log)
-                raised = "other:" + type(ex).__name__
-            except S.Runaway:
-                rec.dead = True
-                n = len(rec.log)
-                raised = "other:Runaway"
+            d1 = list(doers)
+            if kind == "faulted-first":
+                extra = S.build(rec, ("leaf", 999990, "doify", "ok", [([], ("yield", 0.0)), ([], "raise")]), 0)
+                d1 = d1 + [extra]
+            first_raised, _ = _classify(rec, lambda: doist.do(doers=d1))
+            first_tyme = doist.tyme
+            rec.obj.pop(999990, None)
             gc.collect(1)
-            ids = sorted(rec.obj)
-            leaf0 = S.Leaf(rec, ("leaf", -1, "doify", "ok", []), 0)
-            out = dict(unmodelled=S.unmodelled(case), trace=rec.log[n0:n], late=rec.log[n:], flags=[(i, bool(rec.obj[i].done)) for i in ids],
-                       done=bool(doist.done), tyme=doist.tyme, raised=raised, doers=leaf0.ids_of(doist.doers), first_raised=None)
-            if k == 0:
-                first_obs = out
-        out["first_raised"] = first_obs["raised"]
-        out["first_tyme"] = first_obs["tyme"]
+        elif kind == "wound":
+            foreign = tyming.Tymist(tyme=var[1][0], tock=1.0)
+            for o in list(rec.obj.values()):
+                if hasattr(o, "wind"):
+                    o.wind(foreign.tymen())
+        elif kind == "opts":
+            for sid, g in list(rec.sched.items()):
+                if sid != 0:
+                    g.opts = dict(doers=list(g.doers), always=g.always)
+                    g.doers = []
+                    g.always = False
+        if kind == "same":
+            doist.tock = b_tock
+            doist.limit = None if b_limit is None else abs(float(b_limit))
+        else:
+            doist = S.make_doist(rec, b_tock, b_start, b_limit)
+        rec.sched[0] = doist
+        n0 = len(rec.log)
+        arg = (d for d in doers) if kind == "iter" else doers
+        kw = dict(tyme=b_start) if kind == "same" else {}
+        if kind == "init":
+            doist.doers = list(doers)
+
+        def manual():
+            doist.done = False
+            doist.doers = list(doers)
+            try:
+                doist.enter()
+                tymer = tyming.Tymer(tymth=doist.tymen(), duration=doist.limit)
+                while True:
+                    try:
+                        doist.recur()
+                        if not doist.deeds:
+                            doist.done = True
+                            break
+                        if doist.limit is not None and tymer.expired:
+                            break
+                    except KeyboardInterrupt:
+                        break
+            finally:
+                doist.exit()
+
+        def go():
+            if mode == "ado" and kind not in ("call", "manual"):
+                loop = asyncio.SelectorEventLoop()
+                try:
+                    loop.run_until_complete(doist.ado(**kw) if kind == "init" else doist.ado(doers=arg, **kw))
+                finally:
+                    loop.close()
+            elif kind == "call":
+                doist(doers=arg)
+            elif kind == "manual":
+                manual()
+            elif kind == "init":
+                doist.do(**kw)
+            else:
+                doist.do(doers=arg, **kw)
+        raised, n = _classify(rec, go)
+        gc.collect(1)
+        ids = sorted(rec.obj)
+        leaf0 = S.Leaf(rec, ("leaf", -1, "doify", "ok", []), 0)
+        return dict(unmodelled=S.unmodelled(case), trace=rec.log[n0:n], late=rec.log[n:], flags=[(i, bool(rec.obj[i].done)) for i in ids],
+                    done=bool(doist.done), tyme=doist.tyme, raised=raised, doers=leaf0.ids_of(doist.doers),
+                    first_raised=first_raised, first_tyme=first_tyme)
     finally:
         if gc_was:
             gc.enable()
-    return out
+
+
+def run_second(case, first, mode="do"):
+    """kept for replays of ("seq", (start1, limit1), case)"""
+    return run_var(case, ("seq", first), mode)
+
+
+def gen_var(rng, case):
+    """a variant applicable to `case`"""
+    t = float(case[1])
+    kinds = ["ints", "iter", "init", "call", "manual", "opts"]
+    if op_free(case) and not S.unmodelled(case):
+        kinds += list(HISTORY_VARIANTS) * 2
+    k = rng.choice(kinds)
+    if k in ("seq", "faulted-first", "same"):
+        st1, lim1 = gen_first(rng, case)
+        if (lim1 is None and S.has_always(list(case[5]))) or k == "faulted-first" and lim1 is None:
+            lim1 = 3 * t
+        if k == "same":
+            return (k, (st1, lim1, rng.choice([t, t, 2 * t, 0.5 * t, 0.1, 1.0])))
+        return (k, (st1, lim1))
+    if k == "wound":
+        return (k, (rng.choice([float(case[2]) + 7 * t, 1000.5, 0.0, float(case[2]) - 3 * t]),))
+    return (k,)
 
 
 def gen_first(rng, case):
@@ -674,40 +899,53 @@ def gen_first(rng, case):
 
 
 class SeqCases:
-    """mixin for the scheduler checks: a case is a run case or ("seq", (start1, limit1), runcase) — `runcase` is what is observed and
-    what the model is asked; the doer objects have been run before under another Doist"""
-    seq_share = 0.3
+    """mixin for the scheduler checks: a case is a run case, ("seq", (start1, limit1), runcase) or ("var", variant, runcase) — `runcase`
+    is what the model is asked and what the oracle judges; the real code gets there through a history / another entry point (run_var)"""
+    seq_share = 0.4
 
     @staticmethod
     def base(case):
-        return case[2] if case[0] == "seq" else case
+        return case[2] if case[0] in ("seq", "var") else case
+
+    @staticmethod
+    def variant(case):
+        return ("seq", case[1]) if case[0] == "seq" else case[1]
 
     def with_seq(self, rng, cases):
         for c in cases:
-            if c[0] == "run" and rng.random() < self.seq_share and op_free(c) and fault_free(c) and not S.unmodelled(c) \
+            if c[0] == "run" and len(c) == 6 and rng.random() < self.seq_share and not S.unmodelled(c) \
                     and (c[3] is not None or not S.has_always(list(c[5]))):
-                f = gen_first(rng, c)
-                if f[1] is None and S.has_always(list(c[5])):
-                    f = (f[0], 3 * float(c[1]))
-                yield ("seq", f, c)
+                yield ("var", gen_var(rng, c), c)
             else:
                 yield c
 
     def seq_corpus(self, cases):
-        return [("seq", f, c) for c in cases for f in ((0.0, 3.0 * float(c[1])), (float(c[2]) + 5.0, 2.5 * float(c[1])))
-                if op_free(c) and fault_free(c) and (c[3] is not None or not S.has_always(list(c[5])))]
+        out = []
+        for n, c in enumerate(cases):
+            if not (op_free(c) and fault_free(c) and (c[3] is not None or not S.has_always(list(c[5])))):
+                continue
+            t = float(c[1])
+            out.append(("seq", (0.0, 3.0 * t), c))
+            out.append(("seq", (float(c[2]) + 5.0, 2.5 * t), c))
+            extra = [("same", (float(c[2]) + 5.0, 2.5 * t, 2 * t)), ("faulted-first", (float(c[2]) + 5.0, 4 * t)), ("wound", (float(c[2]) + 9.0,)),
+                     ("ints",), ("iter",), ("init",), ("call",), ("manual",), ("opts",)]
+            out.append(("var", extra[n % len(extra)], c))
+            out.append(("var", extra[(n + 4) % len(extra)], c))
+        out += [("var", v, ALWAYS_CASE) for v in (("opts",), ("same", (4.0, 1.0, 1.0)), ("manual",))]
+        return out
 
     def shrink(self, case):
-        if case[0] == "seq":
+        if case[0] in ("seq", "var"):
             yield case[2]
             for c in super().shrink(case[2]):
-                yield ("seq", case[1], c)
+                if case[0] == "var" and case[1][0] not in HISTORY_VARIANTS or op_free(c):
+                    yield (case[0], case[1], c)
         elif case[0] == "run":
             yield from super().shrink(case)
 
     def mutate(self, rng, case):
-        if case[0] == "seq":
-            return [("seq", case[1], c) for c in super().mutate(rng, case[2]) if op_free(c) and fault_free(c)]
+        if case[0] in ("seq", "var"):
+            return [(case[0], case[1], c) for c in super().mutate(rng, case[2]) if op_free(c) and fault_free(c)]
         return super().mutate(rng, case) if case[0] == "run" else []
 
     def nontrivial(self, case, obs):
@@ -715,8 +953,9 @@ class SeqCases:
 
     def features(self, case, obs):
         f = super().features(self.base(case), obs)
-        if case[0] == "seq":
-            f.append("second-run-of-the-same-doer-objects")
+        if case[0] in ("seq", "var"):
+            v = self.variant(case)
+            f.append("variant:" + v[0])
             if obs.d.get("first_tyme") is not None and obs.d["first_tyme"] > float(case[2][2]):
                 f.append("first-doist-ended-ahead-of-second-start")
         return f
@@ -801,9 +1040,24 @@ F46_WITNESS = ("run", 1.0, 0.0, None, [], [_grp(9, [_lf(1, [0.0, 2.5, 0.0, 0.0])
 # known finding C04-K2 = model theorem transparent_under_lagging_dodoer_fails: DoDoer 7 (tock 3) under a Doist with tock 2 comes round
 # at 0, 4, 6, 10, 12 ...; the transparent group 9 inside it is due at tyme + 3 and skips the recurs at 6 and 12
 K2_WITNESS = ("run", 2.0, 0.0, None, [], [_grp(7, [_grp(9, [_lf(1, [1.0] * 5)])], 3.0)])
+DEGENERATE_CORPUS = [
+    ("run", 0.25, 3.0, None, [], []),                                  # Doist(tyme=3.0, tock=0.25).do(doers=[]) must end at 3.25
+    ("run", 1.0, 0.0, 5.0, [], []),
+    ("run", 0.1, 0.3, None, [], [_lf(1, [], "doify", ("done", True)), _lf(2, [], "genrecur", ("done", None)), _lf(3, [], "plain", ("done", True))]),
+    ("run", 0.5, 2.5, None, [], [_grp(9, [_lf(1, [], "bound", ("done", False))]), _grp(8, [])]),
+    ("run", 0.3, 100.1, 0.7, [], [_grp(9, [], 0.3)]),
+]
+# one fault in mid cycle inside the LAST transparent group, live siblings on both sides (flat closes 5,3,2,1; nested 5,3 then 2,1)
+FAULT_CORPUS = [
+    ("run", 1.0, 0.0, None, [], [_lf(1, [0.0] * 6), _lf(2, [0.0] * 6, "plain"), _grp(9, [_lf(3, [0.0] * 6), ("leaf", 4, "doify", "ok", [([], ("yield", 0.0)), ([], ("yield", 0.0)), ([], "raise")]), _lf(5, [0.0] * 6, "genrecur")])]),
+    ("run", 0.5, 1.0, None, [], [_grp(8, [_lf(1, [None] * 6)]), _grp(9, [_lf(2, [0.0] * 6), _grp(7, [_lf(3, [0.0] * 6, "bound"), ("leaf", 4, "genrecur", "ok", [([], ("yield", 0.0)), ([], "kbint")]), _lf(5, [0.0] * 6), _lf(6, [0.0] * 6, "plain")])])]),
+]
+# an `always` DoDoer (kept, resumed every cycle) that outlives its only doer, next to a lagging doer; stopped by the limit
+ALWAYS_CASE = ("run", 0.5, 0.0, 3.0, [], [_grp(7, [_grp(9, [_lf(1, [0.0, 0.0])])], 0.0, True), _lf(2, [1.0] * 3, "plain")])
 TIMING_CORPUS = [
     F46_WITNESS,
     K2_WITNESS,
+    ALWAYS_CASE,
     flatten_case(F46_WITNESS),
     # same, None instead of 0.0, generator-recur shape, two levels of nesting, non-dyadic tock, start != 0
     ("run", 0.1, 0.3, None, [], [_grp(9, [_grp(8, [_lf(1, [None, 0.25, None], "genrecur")]), _lf(3, [0.3, 0.3])]), _lf(2, [0.0] * 5, "plain")]),
